@@ -17,12 +17,12 @@ TRUSTED_BASE = [
 ASSUMPTIONS = ["fee rates in [0,1]; ratio-shifting rate in [0,1] for the round-trip clauses and 0 for the backing clause (as the property states)",
                "dust as quantified in DESIGN.md 4/C04; the swap-equivalent of clause 3 is the fee-free constant-product output at the current ratio-shifting rate"]
 UNPROVED = [
-    "addRemove_Statement (clauses 2 and 3: add then remove never returns more of both, one-sided gain bounded by the equivalent swap): stated in full, judged on every implementation round trip, not proved (needs the closed-form asymmetric swap-amount lemma, DESIGN 4/C04 SwapAmountSound)",
-    "backing_add_Statement (clause 4 for liquidity messages): stated, judged on every implementation message, proved only for swaps (swap_backing_nondecreasing)",
+    "addRemove_Statement (clauses 2 and 3) is proved for symmetric additions (addRemove_symmetric_partial); for the two asymmetric branches it is stated in full and judged on every implementation round trip, not proved (needs the closed-form asymmetric swap-amount lemma, DESIGN 4/C04 SwapAmountSound)",
+    "clause 4 (backing per unit) is proved for swaps (swap_backing_nondecreasing), for additions without internal swap (backing_add_noswap_partial), for removals by units (backing_removeUnits) and by basis points (backing_removeBps); for asymmetric additions backing_add_Statement is stated and judged on every implementation message, not proved",
 ]
 MANIFEST = {
-    "text": "Clause 1 (swap there-and-back never returns more than sent, all depths/amounts/fees/rates >= 0) and clause 4 for swaps (constant product never decreases with ratio shifting off) are Lean theorems over the exact swap calculator; clauses 2-3 and clause 4 for liquidity messages are stated in full in Lean and judged by decidable Lean predicates on real round trips (not proved). Model tied to the Go code by L1 differential execution.",
-    "note": "Partial: add/remove clauses are judged on implementation outputs only. Trusted: Lean kernel (+3 standard axioms), hand-written model tied by the correspondence, harness/driver.",
+    "text": "Clause 1 (swap there-and-back never returns more than sent, all depths/amounts/fees/rates >= 0), clause 4 (backing per unit) for swaps, symmetric additions and both kinds of removal (all magnitudes, exact Dec/Uint rounding, dust of DESIGN 4/C04), and clauses 2-3 for symmetric additions are Lean theorems over the exact calculators; for asymmetric additions clauses 2-4 are stated in full in Lean and judged by decidable Lean predicates on real round trips (not proved). Model tied to the Go code by L1 differential execution.",
+    "note": "Partial: for asymmetric additions (internal square-root swap amount) the clauses are judged on implementation outputs only. Trusted: Lean kernel (+3 standard axioms), hand-written model tied by the correspondence, harness/driver.",
     "technique": "Lean 4 proof (rational inequalities over the swap formula) + Lean-judged differential round trips",
     "design_ref": "4/C04",
 }
